@@ -227,6 +227,7 @@ type dworld struct {
 	label   string
 	bad     bool // a violation was recorded for this case
 	tight   bool // the input has no NULL-string markers: the byte budget can be checked exactly
+	nomodel bool // the operation has no counterpart in the Lean model: implementation-side oracle only
 }
 
 type contextT = context.Context
@@ -518,6 +519,9 @@ func (w *dworld) opRest() {
 
 func (w *dworld) done(cases *[]Case, nontrivial bool) {
 	w.c.Distinct(strings.Join(w.ops, "\n"), nontrivial)
+	if w.nomodel {
+		return
+	}
 	*cases = append(*cases, Case{Label: w.label, Ops: w.ops, Real: w.real})
 }
 
@@ -2003,6 +2007,10 @@ func runDecodeChild(c *Ctx) error {
 					w.opXKey()
 				}
 				rep = w.real[len(w.real)-1]
+			case "krb", "tok2", "tok1s", "tok3s", "ctb":
+				w := newDWorld(c, j.Label, j.Enc, false, unhexFrames(j.Frames), 1)
+				w.opSub(j.Kind)
+				rep = w.real[len(w.real)-1]
 			case "wire":
 				wire, _ := hex.DecodeString(j.Wire)
 				w := newWWorld(c, j.Label, wire, false)
@@ -2124,6 +2132,9 @@ func runChildJobs(c *Ctx, jobs []childJob, cases *[]Case) error {
 			ops = []string{ops[0], "wire 0 " + orc.Payload(wire), j.Api}
 			entry = wireEntry[j.Api]
 		}
+		if k, ok := subKinds[j.Kind]; ok {
+			entry = k.entry
+		}
 		c.Res.Evaluations++
 		switch {
 		case fatal[i] != "":
@@ -2160,6 +2171,8 @@ func runChildJobs(c *Ctx, jobs []childJob, cases *[]Case) error {
 					rep = "err panic"
 				}
 				*cases = append(*cases, Case{Label: j.Label, Ops: ops[1:], Real: []string{"ok", rep}})
+			} else if k, ok := subKinds[j.Kind]; ok && !k.model {
+				// no model counterpart: judged above (fatal / panic / allocation)
 			} else if j.Kind != "stack" {
 				rep := r.Reply
 				if strings.HasPrefix(rep, "err panic") {
@@ -2240,6 +2253,8 @@ func runDecode(c *Ctx) error {
 		return err
 	}
 	timed("handshake-ads")
+	decodeSubprotocols(c, &cases, &jobs)
+	timed("subprotocols")
 	decodeLeaves(c, &cases)
 	timed("leaves")
 	// stack depth of the multi-frame reader
